@@ -1,7 +1,7 @@
 (* C15: every sample lands in exactly one grid bin; grid files round-trip
    (statements only; proofs in GridProofs.v and GridIOProofs.v). *)
 From Coq Require Import ZArith List Bool Reals Lia Lra.
-From CV Require Import Base.Num Base.RNum C15.GridModel C15.GridProofs C15.GridIOModel C15.GridIOProofs.
+From CV Require Import Base.Num Base.RNum C15.GridModel C15.GridProofs C15.GridIOModel C15.GridIOProofs C15.GridOpsModel C15.GridOpsProofs.
 Import ListNotations.
 
 (* The bin index computed by value_to_bin_scalar is the unique i with
@@ -351,3 +351,43 @@ Proof.
   assert (H : value_to_bin Rops 1%R (1 / 2)%R (3 / 4)%R = (-1)%Z) by (apply bin_unique; [lra | cbn; lra]).
   rewrite H. reflexivity.
 Qed.
+
+(* ===================== round 4: the remaining value->bin and grid->grid entry points (GridOpsModel.v) =====================
+   value_to_bin_scalar_bound (current_bin_flat_bound, local_sample_count): always a bin of the grid, the bin of the value
+   when the value is inside, the first / last bin below / above a non-periodic grid. *)
+Theorem C15_bin_bound_clamps : forall (p : bool) (l w x : R) (n : Z), (0 < w)%R -> (0 < n)%Z ->
+  (0 <= value_to_bin_bound Rops p l w n x < n)%Z /\
+  ((l <= x < l + IZR n * w)%R -> value_to_bin_bound Rops p l w n x = value_to_bin Rops l w x) /\
+  (p = false -> (x < l)%R -> value_to_bin_bound Rops p l w n x = 0%Z) /\
+  (p = false -> (l + IZR n * w <= x)%R -> value_to_bin_bound Rops p l w n x = (n - 1)%Z).
+Proof. exact bin_bound_spec. Qed.
+Print Assumptions C15_bin_bound_clamps.
+
+(* value_to_bin_scalar_fraction: the position inside the bin, x = lower + (bin + fraction) * width *)
+Theorem C15_bin_fraction : forall (l w x : R), (0 < w)%R ->
+  (0 <= bin_fraction Rops l w x < 1)%R /\
+  x = (l + (IZR (value_to_bin Rops l w x) + bin_fraction Rops l w x) * w)%R.
+Proof. exact bin_fraction_spec. Qed.
+Print Assumptions C15_bin_fraction.
+
+(* wrap_to_edge: the edge bin is a bin of the grid, and is the wrapped index itself when no edge was crossed *)
+Theorem C15_wrap_to_edge_in_range : forall per nx ix, all_pos nx -> length per = length nx -> length ix = length nx ->
+  let '(r, e, edge) := wrap_to_edge per nx ix in
+  in_range nx e /\ (edge = false -> r = e) /\ length r = length nx.
+Proof. exact wrap_to_edge_in_range. Qed.
+Print Assumptions C15_wrap_to_edge_in_range.
+
+(* map_grid (re-binning of metadynamics grids; the grid-to-grid form of the re-gridding read): onto the same geometry
+   it is a copy -- data re-gridded onto the geometry they already have are unchanged, all shapes and multiplicities *)
+Theorem C15_map_grid_same_geometry_is_copy : forall (this other : grid R),
+  grid_wf this -> grid_wf other -> geom_wf this -> same_geom this other -> Forall (fun w => (0 < w)%R) (gr_width this) ->
+  map_grid Rops this other = gr_data other.
+Proof. exact map_grid_same_geometry. Qed.
+Print Assumptions C15_map_grid_same_geometry_is_copy.
+
+(* add_extra_bin (grids of integrated quantities): n bins become n + 1 points (n when periodic) centred on the bin edges *)
+Theorem C15_extra_bin_sizes : forall (c : cvinfo (T := R)) (p : bool) (l w : R) (n : Z), (0 < n)%Z -> (0 < w)%R ->
+  let '(l', u') := extra_bin_dim Rops p l (l + IZR n * w)%R w in
+  fst (fst (init_dim Rops c l' u' w)) = (if p then n else n + 1)%Z /\ bin_to_value Rops l' w 0 = l.
+Proof. exact extra_bin_sizes. Qed.
+Print Assumptions C15_extra_bin_sizes.
